@@ -121,6 +121,17 @@ def _lookup(s, v):
             w = float(v['pred'][i][o])
             if not abs(p[o] - w) <= tol * (1 + abs(w)):
                 bad.append((i, o, float(p[o]), w))
+        if np.all(x[i] == np.rint(x[i])):
+            # the same point handed over as an integer array
+            try:
+                pi = np.atleast_1d(np.asarray(sur.predict(x[i].astype(int)), dtype=float)).ravel()
+            except Exception as e:
+                pi = None
+                bad.append(('integer-typed query raised %s' % type(e).__name__, i, 0, 0.0, 0.0))
+            for o in range(y.shape[1]):
+                w = float(v['pred'][i][o])
+                if pi is not None and not abs(pi[o] - w) <= tol * (1 + abs(w)):
+                    bad.append(('integer-typed query', i, o, float(pi[o]), w))
     if not bad and s['sur'].startswith('kriging'):
         # history: a training cache file written by an earlier training on the SAME inputs with other outputs must not
         # be served for these outputs
